@@ -15,20 +15,52 @@ LADDER = {"quick": [(5, 0, ["call"]), (4, 1, ["call"]), (3, 2, ["call"])], "thor
 SPEC = {"r1": True, "r2": True}
 
 
+DEPTHS = {"quick": list(range(0, 65)) + [999, 1000, 1001, 10 ** 4, 5 * 10 ** 4],
+          "thorough": list(range(0, 65)) + [999, 1000, 1001, 10 ** 4, 5 * 10 ** 4, 10 ** 5, 2 * 10 ** 5]}
+CATS = CATS + ["deep-recursion", "deep-failed", "deep-value", "deep-flushes"]
+
+
 def jobs(tier, seed):
-    return progx.ladder_jobs(LADDER[tier], MENU, CATS, SPEC)
+    big = [d for d in DEPTHS[tier] if d > 64]
+    for shape in ("chain", "chain-every", "comb"):
+        for d in sorted(big, reverse=True):
+            if shape == "chain-every" and d > 2000:
+                continue  # one flush per level and one full walk per flush: quadratic by design
+            yield {"deep": [[shape, d]]}
+        yield {"deep": [[shape, d] for d in DEPTHS[tier] if d <= 64]}
+    for j in progx.ladder_jobs(LADDER[tier], MENU, CATS, SPEC):
+        yield j
 
 
 worker_init = progx.worker_init
 
 
 def run(job, env):
+    if "deep" in job:
+        import time
+        from .. import deep
+        out = {"evals": 0, "states": 0, "transitions": 0, "nontrivial": 0, "violations": [], "counters": {}}
+        for shape, d in job["deep"]:
+            env["hb"][0] = time.time()
+            vs = deep.run_deep(shape, d)
+            out["evals"] += 1
+            out["states"] += d + 1
+            out["transitions"] += 2 * (d + 1)
+            out["counters"]["deep_runs"] = out["counters"].get("deep_runs", 0) + 1
+            out["counters"]["max_depth"] = 0
+            for cat, msg in vs:
+                out["violations"].append({"sig": cat, "msg": msg, "features": ["deep", shape], "case": {"deep": [[shape, d]]}})
+        return out
     return progx.run_spec(job, env)
 
 
 def replay(case, env):
+    if "deep" in case:
+        from .. import deep
+        return [{"sig": c, "msg": m} for shape, d in case["deep"] for c, m in deep.run_deep(shape, d)]
     return progx.replay_case(case, env)
 
 
 def finish(acc, tier):
-    return {"bounds": {"ladder (size<=n, deviations<=k, conventions)": LADDER[tier], "menu": MENU, "categories judged": CATS}}
+    return {"bounds": {"ladder (size<=n, deviations<=k, conventions)": LADDER[tier], "menu": MENU, "categories judged": CATS,
+                       "depths (chain, chain-every, comb)": DEPTHS[tier]}}
